@@ -313,3 +313,18 @@ def format_string_accepts(s, member_names):
         if v < 0:
             return False
     return True
+
+
+def same_settings_modulo_order(v1, v2):
+    """Do two values report, on every character, the same settings up to their order and up to the
+    artefact `10`?  (The renderer ends a font with code 10, which the parser reads back as the setting
+    "default font".)  True for the known byte-level instability of simplify(), whose first result is
+    already minimal; False when a round of simplify() still removes or changes a setting."""
+    if v1._s != v2._s:
+        return False
+    for a, b in zip(acts(v1), acts(v2)):
+        ta = sorted(t for t in texts(a) if t != '10')
+        tb = sorted(t for t in texts(b) if t != '10')
+        if ta != tb:
+            return False
+    return True
